@@ -1794,7 +1794,7 @@ JettisonOutgoingResults(const NodePathMatcher * matcher)
                      ConstMessageRef nextSubMsgRef;
                      for (uint32 j=0; msg->FindMessage(nextFieldName, j, nextSubMsgRef).IsOK(); /* empty */)
                      {
-                        if (matcher->MatchesPath(nextFieldName(), nextSubMsgRef(), NULL)) (void) msg->RemoveData(nextFieldName, i);
+                        if (matcher->MatchesPath(nextFieldName(), nextSubMsgRef(), NULL)) (void) msg->RemoveData(nextFieldName, j);
                                                                                      else j++;
                      }
                   }
